@@ -347,6 +347,11 @@ func (fm *Server) mount(ctx context.Context, mountpoint string, labels map[strin
 		return nil
 	}
 
+	if fm.curFs == nil {
+		// Init hasn't succeeded yet (e.g. the first Init failed).
+		return fmt.Errorf("filesystem is not initialized")
+	}
+
 	err := fm.curFs.Mount(ctx, mountpoint, labels)
 	if err != nil {
 		log.G(ctx).WithError(err).Errorf("failed to mount stargz")
